@@ -39,14 +39,20 @@ def _child(engine, plan, wfd, trace):
             os.dup2(dn, 2)
             os.dup2(dn, 1)
         faulthandler.dump_traceback_later(RUN_TIMEOUT_S, exit=True)
+
+        def emit(res):
+            data = util.cjson(res).encode()
+            off = 0
+            while off < len(data):
+                off += os.write(wfd, data[off:])
+            os._exit(0)
+
+        world.EMIT = emit
         try:
             res = engine.execute(plan, trace=trace)
         except BaseException:
             res = {"status": "error", "error": traceback.format_exc()[-4000:]}
-        data = util.cjson(res).encode()
-        off = 0
-        while off < len(data):
-            off += os.write(wfd, data[off:])
+        emit(res)
     finally:
         os._exit(0)
 
@@ -187,12 +193,16 @@ def cmd_exec(planfile, trace):
         dn = os.open(os.devnull, os.O_WRONLY)
         os.dup2(dn, 2)
         os.dup2(dn, 1)
+    def emit(res):
+        os.write(real_out, (util.cjson(res) + "\n").encode())
+        os._exit(0)
+
+    world.EMIT = emit
     try:
         res = engine.execute(plan, trace=trace)
     except BaseException:
         res = {"status": "error", "error": traceback.format_exc()[-4000:]}
-    os.write(real_out, (util.cjson(res) + "\n").encode())
-    os._exit(0)
+    emit(res)
 
 
 def main(argv):
